@@ -143,6 +143,18 @@ def gen_case(rng, tier, direction=None, feats=None):
         if rng.random() < 0.3 and not (contention and name == 'a'):
             continue
         resources.append([name, rng.choice(CALS)(rng)])
+    if rng.random() < 0.15:
+        # a calendar whose bounded part ends exactly at the midnight of a day on which a task is released (project start / end day,
+        # a min_start day, the clock's day): the boundary day itself must count as inside
+        days = [bound // DAY_US, bound // DAY_US - 1, now // DAY_US] + [t['min_start'] // DAY_US for t in tasks if t['min_start'] is not None]
+        dd = rng.choice(days)
+        allw = [0, 1, 2, 3, 4, 5, 6]
+        cal = rng.choice([
+            ['op', 'or', ['WL', None, dd * DAY_US, allw, '8'], ['WL', (dd + 2) * DAY_US, None, allw, '8']],
+            ['op', 'or', ['F', '4', None, dd * DAY_US], ['WL', None, None, allw, '8']],
+            ['op', 'or', ['WL', None, (dd - 2) * DAY_US, allw, '8'], ['WL', dd * DAY_US, None, allw, '4']]])
+        nm = rng.choice([t['res'] for t in tasks[:n]])
+        resources = [r for r in resources if r[0] != nm] + [[nm, cal]]
     dead = None
     if rng.random() < 0.06:
         dead = rng.randrange(len(DEAD))
